@@ -12,7 +12,8 @@ op      := L/<pl> | R/<pl> | X/<name> | S/<group>/<pl> | C/<group>/<id>/<pl> | P
 pl      := `-` | name.mask (`,` name.mask)*
 vetoes  := `-` | name.stage (`,` name.stage)*      -- status code returned = 1000 + 100*name + stage
 -/
-namespace Teleport.Drv
+namespace Teleport.Drv.D09
+open Teleport.Drv
 open Teleport Teleport.Plug
 
 def splitList (sep : String) (s : String) : List String := if s == "-" then [] else s.splitOn sep
@@ -87,7 +88,11 @@ def c09 (kind : String) (f : Fields) : String :=
     | _, _, _, _, _ => "bad-case"
   | _ => "bad-kind"
 
-def handlersC09 : List (String × (Fields → String)) :=
+def handlers : List (String × (Fields → String)) :=
   ["c09call", "c09push", "c09fatal"].map (fun k => (k, c09 k))
 
+end Teleport.Drv.D09
+
+namespace Teleport.Drv
+def handlersC09 : List (String × (Fields → String)) := D09.handlers
 end Teleport.Drv
